@@ -51,7 +51,11 @@ KrCollect(outs, aid, slot) ==
     [] a.t = "multi" -> KrCollectSeq(outs, a.acs, slot)
     [] a.t = "tapdance" -> KrCollectSeq(outs, a.acs, slot)
     [] a.t = "fork" -> KrCollect(KrCollect(outs, a.left, slot), a.right, slot)
-    [] a.t = "chords" -> KrCollectSeq(outs, [i \in DOMAIN a.chords |-> a.chords[i].ac], slot)
+    \* only the chords this key position takes part in (fix 09f1a38); a position outside the group's coords: all
+    [] a.t = "chords" ->
+         LET own == ChGetKeys(a, 0, slot)
+             mine == SelectSeq(a.chords, LAMBDA c : own = <<>> \/ Bug = "kr_all_chords" \/ own[1] \cap c.m # {})
+         IN KrCollectSeq(outs, [i \in DOMAIN mine |-> mine[i].ac], slot)
     [] a.t = "switch" -> KrCollectSeq(outs, [i \in DOMAIN a.cases |-> a.cases[i].ac], slot)
     [] a.t = "custom" -> KrAddKcs(outs, KrCustomKeys(a.cu))
     [] a.t = "src" -> KrAddKc(outs, slot)
@@ -76,12 +80,15 @@ KrTable(l, slot) ==
 KrTableDiff ==
   {<<l, k>> \in (0..(NLayers - 1)) \X (DOMAIN SrcTab) : KrHasDump /\ KrTable(l, k) # KrOutputs(l, k)}
 
-\* `outputs_for_key.iter().rev()`: the last listed key that is active; -1 if none
+\* the first active key in the order of repeat_candidates; -1 if none
 KrPick(outs, A) ==
-  LET I == {i \in DOMAIN outs : outs[i] \in A} IN
-  IF I = {} THEN -1
-  ELSE IF Bug = "kr_prefer_first" THEN outs[CHOOSE i \in I : \A j \in I : i <= j]
-  ELSE outs[CHOOSE i \in I : \A j \in I : i >= j]
+  LET I == {i \in DOMAIN outs : outs[i] \in A}
+      \* src: key_repeat.rs repeat_candidates (fix 8b405f8): last listed first, but every non-modifier before any modifier
+      N == {i \in I : ~OvrIsMod(outs[i])}
+      J == IF N # {} /\ Bug # "kr_mods_not_last" THEN N ELSE I
+  IN IF I = {} THEN -1
+     ELSE IF Bug = "kr_prefer_first" THEN outs[CHOOSE i \in I : \A j \in I : i <= j]
+     ELSE outs[CHOOSE i \in J : \A j \in J : i >= j]
 
 \* the loop over trans_resolution_layer_order (key_repeat.rs:37-59)
 RECURSIVE KrLayers(_, _, _)
